@@ -28,7 +28,7 @@ class C06(ConcBase):
 
     def project(self, line):
         p = line.split(" || ")
-        return (p[0] + " || " + re.sub(r" payloads=.*", "", p[2])) if len(p) == 3 else line
+        return (CR.strip_markers(p[0]) + " || " + re.sub(r" payloads=.*", "", p[2])) if len(p) == 3 else line
 
     def spec(self, case, impl):
         return None
